@@ -59,7 +59,7 @@ func (s *rgState) collect() {
 // put appends a Put op (topics, id already encoded) and updates the bookkeeping.
 func (s *rgState) put(topics, id string) {
 	s.ops = append(s.ops, "P:"+topics+":"+id)
-	if topics == "-" {
+	if topics == "-" || topics == "=" {
 		return
 	}
 	if s.valid {
@@ -129,7 +129,7 @@ func (s *rgState) opsString() string {
 func rgPickTopics(rng *rand.Rand, emptyPct, allPct int) string {
 	r := rng.Intn(100)
 	if r < emptyPct {
-		return "-"
+		return pick(rng, "-", "-", "=") // nil, or empty but not nil
 	}
 	if r < emptyPct+allPct {
 		return strings.Join(rgTopics, ",")
